@@ -11,6 +11,7 @@ import re
 import sys
 import textwrap
 import threading
+import zlib
 
 from chameleon.astutil import Builtin
 from chameleon.astutil import Comment
@@ -63,7 +64,17 @@ RE_NAME = re.compile('^%s$' % NAME)
 
 
 def identifier(prefix: str, suffix: str | None = None) -> str:
-    return "__{}_{}".format(mangle(prefix), mangle(suffix or id(prefix)))
+    return "__{}_{}".format(distinct(prefix), distinct(suffix or id(prefix)))
+
+
+def distinct(string: int | str) -> str:
+    """Mangle, keeping names apart that differ only in mangled characters
+    (``a-b``, ``a_b`` and ``a.b`` are three names)."""
+    string = str(string)
+    mangled = mangle(string)
+    if mangled != string:
+        mangled += '_%x' % zlib.crc32(string.encode('utf-8', 'surrogatepass'))
+    return mangled
 
 
 def mangle(string: int | str) -> str:
